@@ -85,6 +85,7 @@ pub uninterp spec fn sp_configured_num_queries() -> usize;
 pub open spec fn fri_shape_ok(fp: &FriProofTargets, n_betas: nat, ibq: Seq<Vec<Target>>, log_blowup: nat) -> bool {
     &&& n_betas > 0
     &&& fp.commit_phase_commits@.len() == n_betas && fp.commit_pow_witnesses@.len() == n_betas && fp.log_arities@.len() == n_betas
+    &&& forall|p: int| 0 <= p < fp.log_arities@.len() ==> #[trigger] fp.log_arities@[p] >= 1
     &&& fp.query_proofs@.len() == ibq.len() && ibq.len() > 0
     &&& forall|q: int| 0 <= q < ibq.len() ==> (#[trigger] ibq[q])@.len() == ibq[0]@.len()
     &&& forall|q: int| 0 <= q < fp.query_proofs@.len() ==> (#[trigger] fp.query_proofs@[q]).commit_phase_openings@.len() == n_betas
@@ -144,6 +145,12 @@ def build():
               'let mut total_log_reduction: usize = 0; for s_ in 0..log_arities.len() { total_log_reduction = total_log_reduction + log_arities[s_]; }')
     f.rewrite('R6', 'index_bits_per_query .iter() .any(|v| v.len() != log_max_height)',
               '({ let mut any_ = false; for k_ in 0..index_bits_per_query.len() { let v = &index_bits_per_query[k_]; if v.len() != log_max_height { any_ = true; } } any_ })')
+    # R6: `if let Some(P) = VEC.iter().position(|&x| COND) {` -> first-match loop + `if let Some(P) = found_pos_ {` (COND verbatim)
+    mp_ = re.search(r'if let Some\((\w+)\) = (\w+)\.iter\(\)\.position\(\|&(\w+)\|\s*([^{;]*?)\) \{', f.body)
+    if mp_:
+        nm_, vec_, x_, cond_ = mp_.group(1), mp_.group(2), mp_.group(3), mp_.group(4).strip()
+        f.body = (f.body[:mp_.start()] + f'let mut found_pos_: Option<usize> = None; for pos_ in 0..{vec_}.len() {{ let {x_} = {vec_}[pos_]; if found_pos_.is_none() && ({cond_}) {{ found_pos_ = Some(pos_); }} }} if let Some({nm_}) = found_pos_ {{' + f.body[mp_.end():])
+        f.rewrites.append(('R6', '`if let Some(p) = VEC.iter().position(|&x| COND)` -> first-match loop (COND verbatim)', ''))
     f.rewrite_re('R5', r'for \(q, query_proof\) in fri_proof_targets\.query_proofs\.iter\(\)\.enumerate\(\)(?:\.skip\((\w+)\))? \{',
                  lambda m: f'for q in {m.group(1) or 0}..fri_proof_targets.query_proofs.len() {{ let query_proof = &fri_proof_targets.query_proofs[q];', min_count=1)
     f.rewrite('R5', 'for (phase, opening) in query_proof.commit_phase_openings.iter().enumerate() {', 'for phase in 0..query_proof.commit_phase_openings.len() { let opening = &query_proof.commit_phase_openings[phase];')
@@ -158,6 +165,8 @@ def build():
     f.rewrite('SPEC', 'total_log_reduction = total_log_reduction + log_arities[s_]; }', '''total_log_reduction = total_log_reduction + log_arities[s_];
             proof { assert(log_arities@.take(s_ as int + 1).drop_last() =~= log_arities@.take(s_ as int)); } }
         proof { assert(log_arities@.take(log_arities@.len() as int) =~= log_arities@); }''')
+    if 'for pos_ in 0..log_arities.len()' in f.body:
+        f.loop('for pos_ in 0..log_arities.len()', invariants=[('no_zero_arity_so_far', 'found_pos_ is None <==> forall|j: int| 0 <= j < pos_ ==> #[trigger] log_arities@[j] != 0')])
     f.loop('for k_ in 0..index_bits_per_query.len()', invariants=[
         ('any', 'any_ == exists|j: int| 0 <= j < k_ && (#[trigger] index_bits_per_query@[j])@.len() != log_max_height'),
     ])
